@@ -36,8 +36,9 @@ def traces_of(lines, start_ops=("reset",)):
 
 
 class Corruption:
-    def __init__(self, name, expect, find, apply):
+    def __init__(self, name, expect, find, apply, trace_ok=None):
         self.name, self.expect, self.find, self.apply = name, set(expect), find, apply
+        self.trace_ok = trace_ok      # optional predicate on the lines of the whole trace
 
 
 def run_family(title, module, cfg, tracefile, corruptions, wd, start_ops=("reset",), single_line=False):
@@ -61,6 +62,8 @@ def run_family(title, module, cfg, tracefile, corruptions, wd, start_ops=("reset
             already = {p for (p, tr) in bad0_tr if tr == trid}
             if not (c.expect - already):
                 continue    # every property that could object already objects to this trace (known deviation)
+            if c.trace_ok and not c.trace_ok(lines[a:b]):
+                continue
             for i in range(a, b):
                 if c.find(lines[i], lines[a]):
                     hit = (ti, i)
@@ -259,7 +262,10 @@ def client_corruptions():
                    and not o["ev"], change_on_reject),
         Corruption("request sent after an RTT sample starts with an RTO one millisecond off", {"C15"},
                    lambda o, r: o["op"] == "send" and o["res"] == "ok" and not r["cfg"]["reliable"]
-                   and o["snap"]["est"]["srtt"] > 0 and o["snap"]["est"]["x"], rto_off),
+                   and o["snap"]["est"]["srtt"] > 0 and o["snap"]["est"]["x"], rto_off,
+                   # the reference estimate must be defined: no receive instant before its request's send
+                   # instant (such a sample is undefined for C15) anywhere in the trace
+                   trace_ok=lambda tl: all(tl[j]["t"] >= tl[j - 1]["t"] for j in range(1, len(tl)))),
         Corruption("FINGERPRINT missing from a request of a fingerprint client", {"C10"},
                    lambda o, r: o["op"] == "send" and o["res"] == "ok" and r["cfg"]["fp"], fp_missing),
         Corruption("retransmission one millisecond before its slot", {"C06", "C11"},
